@@ -114,6 +114,12 @@ class Node(ElementBase):
             q = link_up.get_flow(engine)[-1]
             if q_o is not None:
                 q += q_o  # type: ignore[assignment,operator]
+            links_out = net.out_links(self)
+            if len(links_out) > 1:  # bifurcation: split the flow by turn rates
+                betas = engine.vcat(*(dlink.turnrate for _, _, dlink in links_out))
+                q = engine.nodes.get_upstream_flow(
+                    engine.vcat(q), link.turnrate, betas
+                )
         else:
             v_last = []
             q_last = []
